@@ -291,3 +291,141 @@ def gen_jit(seed=0):
     add(name, mod(name, [("a", "input ", lg(30)), ("b", "input ", lg(50)), ("y", "output", lg(110)), ("z", "output", lg(64))],
                   "    assign y = {a, b, a};\n    assign z = {a[1:0], b[49:0], a[11:0]};"))
     return out
+
+
+def gen_opt(seed=0):
+    """Comb-only multi-statement designs shaped after what the simulator's optimisation passes look for:
+    fusable chains, dead intermediates, duplicate and overriding assignments, versions of one variable inside a
+    block, conditionally executed common subexpressions, case decoding, element-wise array lanes."""
+    rnd = random.Random(seed + 13)
+    out = []
+
+    def add(name, src):
+        out.append((f"opt::{name}", src))
+    w = rnd.choice([7, 9, 12])
+    for W in (8, 33, w):
+        name = f"O_chain_{W}"
+        add(name, mod(name, [("a", "input ", lg(W)), ("b", "input ", lg(W)), ("c", "input ", lg(W)),
+                             ("y", "output", lg(W)), ("z", "output", lg(W))],
+                      f"    var t1: logic<{W}>;\n    var t2: logic<{W}>;\n    var t3: logic<{W}>;\n    var dead: logic<{W}>;\n"
+                      "    assign t1   = a + b;\n    assign t2   = t1 ^ c;\n    assign t3   = t2 & t1;\n    assign dead = t3 - a;\n"
+                      "    assign y    = t3 | t2;\n    assign z    = t1 + t1;"))
+        name = f"O_versions_{W}"
+        add(name, mod(name, [("a", "input ", lg(W)), ("b", "input ", lg(W)), ("s", "input ", "logic"),
+                             ("y", "output", lg(W)), ("z", "output", lg(W)), ("v", "output", lg(W))],
+                      f"    var x: logic<{W}>;\n    always_comb {{\n        x = a;\n        x = x + 1;\n        y = x;\n        x = x ^ b;\n"
+                      "        z = x;\n        if s {\n            x = x - y;\n        }\n        v = x;\n    }"))
+        name = f"O_override_{W}"
+        add(name, mod(name, [("a", "input ", lg(W)), ("b", "input ", lg(W)), ("s", "input ", lg(2)),
+                             ("y", "output", lg(W)), ("f", "output", "logic")],
+                      "    always_comb {\n        y = 0;\n        f = 0;\n        y = a;\n        if s == 1 {\n            y = b;\n            f = 1;\n"
+                      "        } else if s == 2 {\n            y = a & b;\n        }\n        if s == 3 {\n            f = 1;\n        }\n    }"))
+        name = f"O_hoist_{W}"
+        add(name, mod(name, [("a", "input ", lg(W)), ("b", "input ", lg(W)), ("c", "input ", "logic"), ("d", "input ", "logic"),
+                             ("x", "output", lg(W)), ("y", "output", lg(W))],
+                      "    always_comb {\n        if c {\n            x = (a + b) ^ a;\n            y = a + b;\n        } else {\n"
+                      "            x = (a - b) ^ a;\n            y = if d ? a + b : a - b;\n        }\n    }"))
+    for arms in (4, 9, 17):
+        sw = clog2(arms + 1)
+        body = ["    always_comb {", "        g = 0;", "        case sel {"]
+        for k in range(arms):
+            body.append(f"            {sw}'d{k}: {{ y = a ^ 8'd{(k * 37 + 5) % 256}; g = {k % 2}; }}")
+        body += ["            default: y = a;", "        }", "    }"]
+        name = f"O_switch_{arms}"
+        add(name, mod(name, [("sel", "input ", lg(sw)), ("a", "input ", lg(8)), ("y", "output", lg(8)), ("g", "output", "logic")],
+                      "\n".join(body)))
+    for (n, ew) in [(4, 8), (3, 33), (8, 4)]:
+        body = "    always_comb {\n" + "\n".join(f"        y[{k}] = a[{k}] + b[{k}];" for k in range(n)) + "\n" + \
+               "\n".join(f"        z[{k}] = (a[{k}] & b[{k}]) | y[{k}];" for k in range(n)) + "\n    }"
+        name = f"O_lanes_{n}_{ew}"
+        add(name, mod(name, [("a", "input ", f"logic<{ew}> [{n}]"), ("b", "input ", f"logic<{ew}> [{n}]"),
+                             ("y", "output", f"logic<{ew}> [{n}]"), ("z", "output", f"logic<{ew}> [{n}]")], body))
+    for W in (8, 40):
+        name = f"O_single_{W}"
+        add(name, mod(name, [("a", "input ", lg(W)), ("b", "input ", lg(W)), ("c", "input ", lg(W)), ("s", "input ", "logic"),
+                             ("y", "output", lg(W)), ("z", "output", lg(W))],
+                      f"    var t1: logic<{W}>;\n    var t2: logic<{W}>;\n    var t3: logic<{W}>;\n    var k1: logic<{W}>;\n"
+                      "    assign t1 = a + b;\n    assign t2 = t1 ^ c;\n    assign t3 = t2 - a;\n    assign y  = t3 & ~b;\n"
+                      "    assign k1 = c;\n    assign z  = if s ? k1 + t1 : k1 - b;"))
+    for (arms, outs) in [(8, 2), (12, 3), (20, 2)]:
+        sw = clog2(arms + 2)
+        decl = "".join(f"    var r{k}: logic<8>;\n" for k in range(outs))
+        body = [decl + "    always_comb {"] + [f"        r{k} = 8'd{k + 1};" for k in range(outs)] + ["        case sel {"]
+        for k in range(arms):
+            asg = " ".join(f"r{o} = 8'd{(k * (o + 3) * 29 + o) % 256};" for o in range(outs) if (k + o) % 3 != 0)
+            body.append(f"            {sw}'d{k}: {{ {asg} }}")
+        body += ["            default: { }", "        }"] + [f"        y{k} = r{k} ^ a;" for k in range(outs)] + ["    }"]
+        name = f"O_lut_{arms}_{outs}"
+        add(name, mod(name, [("sel", "input ", lg(sw)), ("a", "input ", lg(8))] + [(f"y{k}", "output", lg(8)) for k in range(outs)],
+                      "\n".join(body)))
+    for (N, Wd) in [(4, 8), (3, 20), (2, 70)]:
+        # explicit transposition + per-row reduction (the shape lane_vector recovers), and a word assembled bit by bit
+        decl = "".join(f"    var rev{j}: logic<{N}>;\n" for j in range(Wd))
+        body = [decl + "    always_comb {"]
+        for j in range(Wd):
+            for i in range(N):
+                body.append(f"        rev{j}[{i}] = m{i}[{j}];")
+        for j in range(Wd):
+            body.append(f"        o[{j}] = |rev{j};")
+            body.append(f"        p[{j}] = &rev{j};")
+        for j in range(Wd):
+            body.append(f"        q[{j}] = m0[{j}] ^ m1[{(j + 1) % Wd}];")
+        body.append("    }")
+        name = f"O_transpose_{N}_{Wd}"
+        add(name, mod(name, [(f"m{i}", "input ", lg(Wd)) for i in range(N)] +
+                      [("o", "output", lg(Wd)), ("p", "output", lg(Wd)), ("q", "output", lg(Wd))], "\n".join(body)))
+    for (N, Wd) in [(4, 8), (3, 20), (4, 64)]:
+        # the same shapes as separate top-level assigns (what the fusion stages see as single statements)
+        decl = "".join(f"    var rv{j}: logic<{N}>;\n" for j in range(Wd))
+        body = [decl.rstrip("\n")]
+        for j in range(Wd):
+            for i in range(N):
+                body.append(f"    assign rv{j}[{i}] = m{i}[{j}];")
+        for j in range(Wd):
+            body.append(f"    assign o[{j}] = |rv{j};")
+        for j in range(Wd):
+            body.append(f"    assign q[{j}] = m0[{j}] ^ m1[{(j + 1) % Wd}];")
+        name = f"O_transpose_a_{N}_{Wd}"
+        add(name, mod(name, [(f"m{i}", "input ", lg(Wd)) for i in range(N)] +
+                      [("o", "output", lg(Wd)), ("q", "output", lg(Wd))], "\n".join(body)))
+    for (n, ew) in [(4, 8), (8, 4)]:
+        body = "\n".join(f"    assign y[{k}] = a[{k}] + b[{k}];" for k in range(n)) + "\n" + \
+               "\n".join(f"    assign z[{k}] = (a[{k}] & b[{k}]) | y[{k}];" for k in range(n))
+        name = f"O_lanes_a_{n}_{ew}"
+        add(name, mod(name, [("a", "input ", f"logic<{ew}> [{n}]"), ("b", "input ", f"logic<{ew}> [{n}]"),
+                             ("y", "output", f"logic<{ew}> [{n}]"), ("z", "output", f"logic<{ew}> [{n}]")], body))
+    for (arms, outs) in [(9, 2), (16, 3), (40, 2)]:
+        sw = clog2(arms + 2)
+        body = ["    always_comb {"] + [f"        y{k} = 8'd{k + 1};" for k in range(outs)]
+        for k in range(arms):
+            asg = " ".join(f"y{o} = 8'd{(k * (o + 3) * 29 + o) % 256};" for o in range(outs) if (k + o) % 3 != 0)
+            kw = "if" if k == 0 else "} else if"
+            body.append(f"        {kw} sel == {sw}'d{k} {{ {asg}")
+        body += ["        }", "    }"]
+        name = f"O_lutif_{arms}_{outs}"
+        add(name, mod(name, [("sel", "input ", lg(sw))] + [(f"y{k}", "output", lg(8)) for k in range(outs)], "\n".join(body)))
+    for W in (8, 33, 64):
+        # `let` bindings are the variables the fusion / dead-variable passes may retire
+        name = f"O_let_{W}"
+        add(name, mod(name, [("a", "input ", lg(W)), ("b", "input ", lg(W)), ("c", "input ", lg(W)), ("s", "input ", "logic"),
+                             ("y", "output", lg(W)), ("z", "output", lg(W)), ("v", "output", lg(W))],
+                      f"    let t1  : logic<{W}> = a + b;\n    let t2  : logic<{W}> = t1 ^ c;\n    let t3  : logic<{W}> = ~t2 - a;\n"
+                      f"    let dead: logic<{W}> = t3 + c;\n    let m1  : logic<{W}> = a & c;\n    let m2  : logic<{W}> = a & c;\n"
+                      f"    let k   : logic<{W}> = b;\n"
+                      "    assign y = t3 & ~b;\n    assign z = if s ? m1 + k : m2 - k;\n    assign v = (m1 | k) ^ (m2 >> 1);"))
+        name = f"O_letblk_{W}"
+        add(name, mod(name, [("a", "input ", lg(W)), ("b", "input ", lg(W)), ("s", "input ", lg(2)),
+                             ("y", "output", lg(W)), ("z", "output", lg(W))],
+                      f"    always_comb {{\n        let p: logic<{W}> = a - b;\n        let q: logic<{W}> = p ^ (a << 1);\n"
+                      "        y = q;\n        z = p;\n        if s[0] {\n            y = q + 1;\n        }\n"
+                      "        if s[1] {\n            z = q & p;\n        }\n    }"))
+    name = "O_dup"
+    add(name, mod(name, [("a", "input ", lg(6)), ("b", "input ", lg(6)), ("p", "output", lg(6)), ("q", "output", lg(6)),
+                         ("r", "output", lg(6))],
+                  "    var m: logic<6>;\n    var n: logic<6>;\n    assign m = a * b;\n    assign n = a * b;\n    assign p = m;\n"
+                  "    assign q = n + m;\n    assign r = (a * b) - n;"))
+    name = "O_bits"
+    add(name, mod(name, [("a", "input ", lg(16)), ("y", "output", lg(16)), ("z", "output", lg(4))],
+                  "    always_comb {\n        y        = 0;\n        y[3:0]   = a[15:12];\n        y[7:4]   = a[3:0] + 4'd1;\n"
+                  "        y[15:8]  = {a[7:4], a[11:8]};\n        z        = y[7:4] ^ y[3:0];\n    }"))
+    return out
